@@ -163,6 +163,31 @@ type opCtx struct {
 	pendBytesLo, pendBytesHi int64
 	pendFilesLo, pendFilesHi int64
 	baseNewFileFailed        bool
+	// Extremes, over the quiescent points since the operation began, of
+	// what everybody else may hold (plus this actor's own pre-operation
+	// state): a refusal or acceptance is decided at some instant during
+	// the flight, not at the instant the call returns.
+	sampled        bool
+	minLoB, maxHiB int64
+	minLoF, maxHiF int64
+	overlapAlloc   bool // another allocation was in flight at the same time
+}
+
+// sample records the current quota interval as seen by this operation.
+func (c *opCtx) sample() {
+	bLo, bHi, fLo, fHi := c.p.quotaUsed(c)
+	if !c.sampled {
+		c.sampled = true
+		c.minLoB, c.maxHiB, c.minLoF, c.maxHiF = bLo, bHi, fLo, fHi
+	} else {
+		c.minLoB, c.maxHiB = min(c.minLoB, bLo), max(c.maxHiB, bHi)
+		c.minLoF, c.maxHiF = min(c.minLoF, fLo), max(c.maxHiF, fHi)
+	}
+	for _, o := range c.p.ctxs {
+		if o != c && o.inflight && (o.pendBytesHi > 0 || o.pendFilesHi > 0) {
+			c.overlapAlloc = true
+		}
+	}
 }
 
 func (c *opCtx) gen() int32 { return c.fileGen }
@@ -183,6 +208,8 @@ func (c *opCtx) begin(o *op, fm *fileModel, gen int) {
 	c.foreign = ""
 	c.baseNewFileFailed = false
 	c.pendBytesLo, c.pendBytesHi, c.pendFilesLo, c.pendFilesHi = 0, 0, 0, 0
+	c.sampled, c.overlapAlloc = false, false
+	c.sample()
 }
 
 func (c *opCtx) end() {
@@ -268,11 +295,27 @@ func (p *pass) quotaUsed(c *opCtx) (bytesLo, bytesHi, filesLo, filesHi int64) {
 // bytes and growFiles more files with the quota model. It returns true if the
 // error (if any) was a legitimate quota refusal.
 func (p *pass) checkQuota(c *opCtx, growBytes, growFiles int64, err error) bool {
-	cfg := &p.w.cfg
+	maxBytes, maxFiles := int64(p.maxBytes), int64(p.maxFiles)
 	bLo, bHi, fLo, fHi := p.quotaUsed(c)
-	mustFail := bLo+growBytes > int64(cfg.maxBytes) && growBytes > 0 || fLo+growFiles > int64(cfg.maxFiles) && growFiles > 0
-	mustSucceed := (growBytes == 0 || bHi+growBytes <= int64(cfg.maxBytes)) && (growFiles == 0 || fHi+growFiles <= int64(cfg.maxFiles))
-	state := fmt.Sprintf("model: %d..%d of %d bytes and %d..%d of %d files in use, operation needs %d more bytes and %d more files", bLo, bHi, cfg.maxBytes, fLo, fHi, cfg.maxFiles, growBytes, growFiles)
+	nowFits := (growBytes == 0 || bHi+growBytes <= maxBytes) && (growFiles == 0 || fHi+growFiles <= maxFiles)
+	if p.atomic {
+		// Interleaving at single atomic operations: the decision was
+		// taken at some quiescent state since the operation began.
+		c.sample()
+		bLo, bHi, fLo, fHi = c.minLoB, c.maxHiB, c.minLoF, c.maxHiF
+		if c.overlapAlloc && (growBytes > 0 || growFiles > 0) {
+			p.w.k.Probe("allocations-in-flight-together")
+			if growBytes > 0 && bHi+growBytes > maxBytes && bLo+growBytes <= maxBytes || growFiles > 0 && fHi+growFiles > maxFiles && fLo+growFiles <= maxFiles {
+				p.w.k.Probe("allocations-in-flight-together-competing-for-last-quota")
+			}
+		}
+	}
+	mustFail := bLo+growBytes > maxBytes && growBytes > 0 || fLo+growFiles > maxFiles && growFiles > 0
+	mustSucceed := (growBytes == 0 || bHi+growBytes <= maxBytes) && (growFiles == 0 || fHi+growFiles <= maxFiles)
+	state := fmt.Sprintf("model: %d..%d of %d bytes and %d..%d of %d files in use, operation needs %d more bytes and %d more files", bLo, bHi, maxBytes, fLo, fHi, maxFiles, growBytes, growFiles)
+	if p.atomic && isQuotaErr(err) && nowFits && !mustSucceed {
+		p.w.k.Probe("refusal-justified-only-by-in-flight-reservations")
+	}
 	if isQuotaErr(err) {
 		p.w.k.Probe("quota-refusal")
 		if mustSucceed {
@@ -283,10 +326,47 @@ func (p *pass) checkQuota(c *opCtx, growBytes, growFiles int64, err error) bool 
 	if mustFail {
 		p.violate("C15/quota-exceeded", fmt.Sprintf("%s was not refused (err=%v) although it exceeds the quota (%s): quota released twice or not enforced", c.describe(), err, state))
 	}
-	if growBytes > 0 && !mustFail && bLo+growBytes == int64(cfg.maxBytes) {
+	if growBytes > 0 && !mustFail && bLo+growBytes == maxBytes {
 		p.w.k.Probe("quota-filled-exactly")
 	}
 	return false
+}
+
+// afterStep runs at every quiescent point of an interleaved pass. Conservation
+// is stated on what is *held*: the sizes of the live files as acknowledged by
+// completed operations, minus whatever operations in flight may already have
+// given back, can never exceed the configured quota.
+func (p *pass) afterStep() {
+	for _, c := range p.actors {
+		if c.inflight {
+			c.sample()
+		}
+	}
+	var bytes, files int64
+	var live []string
+	for _, fm := range p.slots {
+		if fm != nil {
+			bytes += int64(len(fm.data))
+			files++
+			live = append(live, fmt.Sprintf("slot%d/gen%d:%d bytes", fm.slot, fm.gen, len(fm.data)))
+		}
+	}
+	var flying []string
+	for _, c := range p.ctxs {
+		if c.inflight {
+			bytes += c.pendBytesLo
+			files += c.pendFilesLo
+			if c.cur != nil {
+				flying = append(flying, c.name+": "+c.cur.String())
+			}
+		}
+	}
+	if files == int64(p.maxFiles) {
+		p.w.k.Probe("file-quota-fully-held")
+	}
+	if bytes > int64(p.maxBytes) || files > int64(p.maxFiles) {
+		p.violate("C15/quota-overshoot", fmt.Sprintf("at least %d bytes in %d files are held at the same time (live files: %v; operations in flight counted with the least they can hold: %v) but the quota is %d bytes and %d files: the same quota was handed out twice", bytes, files, live, flying, p.maxBytes, p.maxFiles))
+	}
 }
 
 // needExcuse flags an error that nothing explains.
@@ -349,7 +429,7 @@ func (p *pass) exec(c *opCtx, o *op) {
 			return
 		}
 	}
-	if faulted || p.suspect > 0 {
+	if (faulted || p.suspect > 0) && !p.atomic {
 		// ... and measure the remaining byte quota from the outside.
 		var target *fileModel
 		for _, x := range p.slots {
@@ -905,12 +985,11 @@ func (p *pass) probeQuotaOn(c *opCtx, fm *fileModel, when string, suspect int64)
 	if p.othersInflight(c) {
 		return
 	}
-	cfg := &p.w.cfg
 	bLo, _, fLo, _ := p.quotaUsed(c)
-	if fm == nil && fLo >= int64(cfg.maxFiles) {
+	if fm == nil && fLo >= int64(p.maxFiles) {
 		return
 	}
-	remaining := int64(cfg.maxBytes) - bLo
+	remaining := int64(p.maxBytes) - bLo
 	if remaining < 0 {
 		panic(simsync.HarnessError{Msg: "quota model negative"})
 	}
@@ -942,7 +1021,7 @@ func (p *pass) probeQuotaOn(c *opCtx, fm *fileModel, when string, suspect int64)
 		})
 		return
 	}
-	state := fmt.Sprintf("the model says %d of %d bytes are in use", bLo, cfg.maxBytes)
+	state := fmt.Sprintf("the model says %d of %d bytes are in use", bLo, p.maxBytes)
 	p.w.k.Probe("quota-probe")
 	e1 := tryHold(remaining + 1)
 	if p.w.k.Failed() {
